@@ -56,7 +56,23 @@ func runStep(m, rl, wl, p, pc int, pre []ins) (res stepResult) {
 
 func stepLine(m, rl, wl, p, pc int, pre []ins, res stepResult) string {
 	var sb strings.Builder
-	fmt.Fprintf(&sb, `{"M":%d,"RL":%d,"WL":%d,"P":%d,"pc":%d,"pre":%s,"d":[`, m, rl, wl, p, pc, insListJSON(pre))
+	if m > 4096 {
+		// big cores are written sparsely: the cells that differ from the initial DAT.F $0, $0
+		fmt.Fprintf(&sb, `{"M":%d,"RL":%d,"WL":%d,"P":%d,"pc":%d,"sparse":1,"pre":[`, m, rl, wl, p, pc)
+		first := true
+		for a := range pre {
+			if pre[a] != (ins{}) {
+				if !first {
+					sb.WriteByte(',')
+				}
+				first = false
+				fmt.Fprintf(&sb, "[%d,%s]", a, pre[a].json())
+			}
+		}
+		sb.WriteString(`],"d":[`)
+	} else {
+		fmt.Fprintf(&sb, `{"M":%d,"RL":%d,"WL":%d,"P":%d,"pc":%d,"pre":%s,"d":[`, m, rl, wl, p, pc, insListJSON(pre))
+	}
 	first := true
 	for a := range res.post {
 		if res.post[a] != pre[a] {
@@ -87,6 +103,8 @@ func cmdSteps(args []string) {
 	msFlag := fs.String("M", "5,8", "core sizes")
 	reps := fs.Int("reps", 4, "repetitions per form and core size")
 	exh := fs.String("exhaustive", "", "core sizes for which all (a,b) and all (RL,WL) are enumerated for every form")
+	big := fs.String("big", "", "core sizes above 65536 for the big-core family (sparse lines)")
+	bigN := fs.Int("bign", 60, "steps per big core size")
 	lim := fs.Bool("limits", false, "C11 mode: all limit pairs, operands near the limit boundaries")
 	fs.Parse(args)
 	r := rand.New(rand.NewSource(*seed))
@@ -121,6 +139,43 @@ func cmdSteps(args []string) {
 				rl, wl := genLimits(r, m)
 				emit(m, rl, wl, 1+r.Intn(3), pc, pre)
 			}
+		}
+	}
+	// cores beyond 16 bits (and beyond the square root of 2^32): arithmetic on large field values, far pointers
+	for _, m := range parseInts(*big) {
+		for k := 0; k < *bigN; k++ {
+			pre := make([]ins, m)
+			pc := []int{0, 1, m - 1, 65535, 65536, m / 2, r.Intn(m)}[r.Intn(7)] % m
+			f := formOf(r.Intn(7616))
+			if r.Intn(3) != 0 {
+				f.Op = 2 + r.Intn(5) // ADD SUB MUL DIV MOD
+			}
+			bigv := func() int {
+				return []int{m - 1, m - 2, 65535, 65536, 65537, m / 2, m/2 + 1, 46341, m - 1 - r.Intn(1000), r.Intn(m), r.Intn(m), 1 + r.Intn(5)}[r.Intn(12)] % m
+			}
+			f.A, f.B = bigv(), bigv()
+			pre[pc] = f
+			// the cells the operands can reach, with large fields of their own
+			for _, t := range []int{(pc + f.A) % m, (pc + f.B) % m, (pc + 1) % m, (pc + m - 1) % m} {
+				if t != pc {
+					c := genCell(r, m)
+					c.A, c.B = bigv(), bigv()
+					pre[t] = c
+				}
+			}
+			for j := 0; j < 6; j++ {
+				t := r.Intn(m)
+				if t != pc {
+					c := genCell(r, m)
+					c.A, c.B = bigv(), bigv()
+					pre[t] = c
+				}
+			}
+			rl, wl := m, m
+			if r.Intn(3) == 0 {
+				rl, wl = 1+r.Intn(m), 1+r.Intn(m)
+			}
+			emit(m, rl, wl, 1+r.Intn(3), pc, pre)
 		}
 	}
 	for _, m := range parseInts(*exh) {
@@ -190,7 +245,16 @@ func cmdStepsReplay(args []string) {
 	w := newShardWriter(*out, 1)
 	for _, e := range evs {
 		m, rl, wl, p, pc := jint(e["M"]), jint(e["RL"]), jint(e["WL"]), jint(e["P"]), jint(e["pc"])
-		pre := jinsList(e["pre"])
+		var pre []ins
+		if jint(e["sparse"]) == 1 {
+			pre = make([]ins, m)
+			for _, c := range e["pre"].([]interface{}) {
+				t := c.([]interface{})
+				pre[jint(t[0])] = jins(t[1])
+			}
+		} else {
+			pre = jinsList(e["pre"])
+		}
 		res := runStep(m, rl, wl, p, pc, pre)
 		w.line(stepLine(m, rl, wl, p, pc, pre, res))
 	}
